@@ -275,9 +275,12 @@ __get_bdays(unsigned int y, unsigned int m)
  */
 	unsigned int md = __get_mdays(y, m);
 
-	/* rd should not overflow */
-	assert((signed int)md - 28 >= 0);
-	
+	/* rd should not overflow, a month of nought (a date parsed without
+	 * one) has no days and hence no business days */
+	if (UNLIKELY(md < 28U)) {
+		return 0U;
+	}
+
 	unsigned int rd = (unsigned int)(md - 28U);
 	dt_dow_t m01wd;
 	dt_dow_t m28wd;
